@@ -9,7 +9,7 @@
 (assert (forall ((A (Array Int Str)) (p Int) (q Int)) (! (=> (<= q p) (= (joinseg A p q) eps)) :pattern ((joinseg A p q)))))
 ;;@ axiom STR-joinseg-one trigger=joinseg :: T-STR: joining a one-element range gives that element
 (assert (forall ((A (Array Int Str)) (p Int)) (! (= (joinseg A p (+ p 1)) (select A p)) :pattern ((joinseg A p (+ p 1))))))
-;;@ axiom STR-joinseg-split trigger=joinseg,cat :: T-STR: consecutive ranges concatenate: join(A,p,q)+join(A,q,r) = join(A,p,r)
+;;@ axiom STR-joinseg-split optin trigger=joinseg,cat :: T-STR: consecutive ranges concatenate: join(A,p,q)+join(A,q,r) = join(A,p,r)
 (assert (forall ((A (Array Int Str)) (p Int) (q Int) (r Int)) (! (=> (and (<= p q) (<= q r)) (= (cat (joinseg A p q) (joinseg A q r)) (joinseg A p r))) :pattern ((joinseg A p q) (joinseg A q r)))))
 ;;@ axiom STR-piece-is-char trigger=pieces,clen :: T-STR: every piece of a string is a one-character string
 (assert (forall ((s Str) (i Int)) (! (=> (and (<= 0 i) (< i (clen s))) (= (clen (select (pieces s) i)) 1)) :pattern ((select (pieces s) i)))))
@@ -18,9 +18,27 @@
 ;;@ axiom STR-cat-blen trigger=cat,blen :: T-STR: byte length is additive
 (assert (forall ((a Str) (b Str)) (! (= (blen (cat a b)) (+ (blen a) (blen b))) :pattern ((cat a b)))))
 
-; prefix sums over a byte array: psum(A, base, stride, j) = sum_{k<j} A[base + stride*k]
-(declare-fun psum ((Array Int Int) Int Int Int) Int)
+; prefix sums over the elements of a byte slice (array A, offset off):
+;   psum(A, off, start, stride, j) = sum_{k<j} A[idx(off, start + stride*k)]
+(declare-fun psum ((Array Int Int) Int Int Int Int) Int)
 ;;@ axiom PSUM-zero trigger=psum :: definition of the prefix sum (base case)
-(assert (forall ((A (Array Int Int)) (b Int) (s Int)) (! (= (psum A b s 0) 0) :pattern ((psum A b s 0)))))
-;;@ axiom PSUM-step trigger=psum :: definition of the prefix sum (step)
-(assert (forall ((A (Array Int Int)) (b Int) (s Int) (j Int)) (! (=> (> j 0) (= (psum A b s j) (+ (psum A b s (- j 1)) (select A (+ b (* s (- j 1))))))) :pattern ((psum A b s j)))))
+(assert (forall ((A (Array Int Int)) (o Int) (b Int) (s Int)) (! (= (psum A o b s 0) 0) :pattern ((psum A o b s 0)))))
+;;@ axiom PSUM-step trigger=psum :: definition of the prefix sum (step); relates two existing terms, never creates new prefix sums
+(assert (forall ((A (Array Int Int)) (o Int) (b Int) (s Int) (j Int)) (! (=> (>= j 0) (= (psum A o b s (+ j 1)) (+ (psum A o b s j) (select A (idx o (+ b (* s j))))))) :pattern ((psum A o b s (+ j 1)) (psum A o b s j)))))
+
+; ---------- valid UTF-8 (used by the round trip of C11, never by C12) ----------
+(declare-fun utf8ok (Str) Bool)
+;;@ axiom UTF8-eps trigger=utf8ok,eps :: T-STR: the empty string is valid UTF-8
+(assert (utf8ok eps))
+;;@ axiom UTF8-cat trigger=utf8ok,cat :: T-STR (valid UTF-8): a concatenation of valid strings is valid and its character count is the sum
+(assert (forall ((a Str) (b Str)) (! (=> (and (utf8ok a) (utf8ok b)) (and (utf8ok (cat a b)) (= (clen (cat a b)) (+ (clen a) (clen b))))) :pattern ((cat a b)))))
+;;@ axiom UTF8-seg-left trigger=utf8ok,cat,joinseg :: T-STR (valid UTF-8): a segment of a concatenation that lies within the left operand is that segment of the left operand
+(assert (forall ((a Str) (b Str) (p Int) (q Int)) (! (=> (and (utf8ok a) (utf8ok b) (<= 0 p) (<= p q) (<= q (clen a))) (= (joinseg (pieces (cat a b)) p q) (joinseg (pieces a) p q))) :pattern ((joinseg (pieces (cat a b)) p q)))))
+;;@ axiom UTF8-seg-right trigger=utf8ok,cat,joinseg :: T-STR (valid UTF-8): the segment of a concatenation from the end of the left operand to the end is the right operand
+(assert (forall ((a Str) (b Str)) (! (=> (and (utf8ok a) (utf8ok b)) (= (joinseg (pieces (cat a b)) (clen a) (+ (clen a) (clen b))) b)) :pattern ((cat a b)))))
+;;@ axiom PSUM-mono optin trigger=psum :: PROVED (lemma L-psum-mono, induction): prefix sums of non-negative entries are non-decreasing, and a later prefix sum includes the next summand
+(assert (forall ((A (Array Int Int)) (o Int) (b Int) (s Int) (i Int) (j Int))
+  (! (=> (and (<= 0 i) (<= i j) (forall ((x Int)) (>= (select A x) 0)))
+         (and (<= (psum A o b s i) (psum A o b s j))
+              (=> (< i j) (<= (+ (psum A o b s i) (select A (idx o (+ b (* s i))))) (psum A o b s j)))))
+     :pattern ((psum A o b s i) (psum A o b s j)))))
